@@ -30,6 +30,8 @@ FIXES = [
     ("fixed-C16-shared-error-path", "C16", "differs_from_fresh_engine", "own error path list"),
     ("fixed-C18-operation-without-root-type", "C18", "no root type", "has no root type in the schema"),
     ("fixed-C03-empty-multiple-exception", "C03", "MultipleException", "empty MultipleException"),
+    ("fixed-C07-interface-typename", "C07", "__typename-on-interface", "__typename on an interface-typed selection"),
+    ("fixed-C07-unknown-variable-type", "C07", "unknown-type", "type the schema does not define"),
     ("fixed-C06-subscription-root-repeated", "C06", "valid_request_refused", "single root field several times"),
 ]
 
